@@ -9,6 +9,7 @@ FILES = {
     "zz_verif_c08_json_test.go": "C08/json_test.go",
     "zz_verif_c08_bytes_test.go": "C08/bytes_test.go",
     "zz_verif_c08_jsonmodel_test.go": "C08/jsonmodel_test.go",
+    "zz_verif_c08_directed_test.go": "C08/directed_test.go",
 }
 
 
@@ -37,6 +38,8 @@ class P(vlib.Prop):
     coq_targets = ["C08/Properties.vo", "C08/Witness.vo", "C08/Harness.vo"]
     properties_module = "C08.Properties"
     properties_file = "C08/Properties.v"
+    # the instance obligations (otlp_schema_wf, wrappers, otlp_json_covers_partial, otlp_json_int64_dual,
+    # otlp_json_enum_forms_partial, otlp_*_roundtrip, *_refuted) are theorems of Properties.v and are counted there
     instance_obligations = []
     harness_module = "C08.Harness"
     case_type = "case"
@@ -44,20 +47,31 @@ class P(vlib.Prop):
     harnesses = [
         vlib.Harness("codec", MOD, PKG, FILES, "^TestVerifC08$", "pprofileotlp", timeout=1500),
     ]
-    rule = ""
-    trusted_base = []
-    assumptions = []
-
-    def match_known(self, finding, failure):
-        """As vlib.Prop.match_known, but a signature may list several oracle kinds under which the
-        same defect shows ('kinds')."""
-        import re
-        sig = finding.get("signature", {})
-        kinds = sig.get("kinds") or [sig.get("kind")]
-        if failure["kind"] not in kinds:
-            return False
-        rx = sig.get("detail_regex")
-        return not rx or re.search(rx, failure["detail"]) is not None
+    rule = ("One Go harness in package pprofileotlp (the only package that can import all four signals and their otlp wrappers). "
+            "(A) 60 random payloads per signal (logs, metrics, traces, profiles) generated over the WHOLE reflected schema (every field, every oneof "
+            "alternative incl. unset, nested AnyValue, boundary integers, NaN/+-Inf/-0/denormals, empty vs absent, zero/random ids, strings "
+            ">127 bytes, packed runs >127 bytes) through the public ProtoMarshaler/ProtoUnmarshaler/JSONMarshaler/JSONUnmarshaler and the "
+            "ExportRequest wrappers; (B) 14 values of each of the 57 message types through the generated Marshal/Size/Unmarshal; (C) 25 export "
+            "responses per signal; (D) 700 byte strings: valid encodings rewritten at the wire level (shuffled, duplicated, concatenated, nested "
+            "rewrites, packed<->unpacked, unknown fields and groups, non-minimal/overlong varints, aliased field numbers, ids of every length), "
+            "corrupted and random bytes, plus the decode paths that migrate deprecated scope fields; (E) 400 mutated/hand-written/random JSON texts. "
+            "Case kinds evaluated in Coq: 0 value->bytes (model encode = real bytes, size, decode), 1/2 bytes->value (one-sided: whenever the "
+            "model accepts), 4 value->JSON tree, 5 JSON tree->value incl. the alternate forms (one-sided). A case is non-trivial when the "
+            "encoding has > 2 bytes / the input is non-empty; distinct = distinct case terms.")
+    trusted_base = [
+        "Coq 8.16.1 kernel + vm_compute (coqc); no axioms (Print Assumptions: closed under the global context for all 25 theorems)",
+        "schema translator: harness/C08/schema_test.go reads struct tags, XXX_OneofWrappers and Go field types of pdata/internal/data/protogen/** by reflection on every run and probes each message's emission order by marshalling; validated by the byte-exact correspondence",
+        "JSON decoder table: obtained on every run by running the real jsoniter decoders on one minimal document per message x key x token form (harness/C08/jsonmodel_test.go); validated by case kind 5",
+        "JSON character level (jsoniter lexer, jsonpb printer, strconv, base64/hex text) is NOT modelled: real documents are parsed into the tree type with encoding/json + strconv along the schema",
+        "Go harness harness/C08/*.go + go test -overlay; Go toolchain; encoding/json as the reference JSON parser",
+        "hand-written models tied by correspondence: coq/C08/Model.v (gogo Marshal/Size/Unmarshal/skip, ids, otlp.MigrateX), coq/C08/Json.v (jsonpb emission rules, ReadObjectCB decoding loop, readers)",
+    ]
+    assumptions = [
+        "a Go slice is shorter than 2^64 bytes (hypothesis size < 2^64 of proto_roundtrip)",
+        "values are well-typed trees over the schema (canonical); strings hold what the generator can produce (valid UTF-8) for the JSON clauses",
+        "JSON can express one NaN: the JSON theorems and oracles are stated for doubles that are not NaN or are the canonical NaN",
+        "objects in JSON documents have no duplicate keys and at most one spelling of a key (the model is document-directed like the code, the correspondence only feeds such documents)",
+    ]
 
     def translate(self, ctx):
         """Dump the schema of the OTLP messages from the CURRENT tree (reflection over the generated
